@@ -143,6 +143,7 @@ type Raw struct {
 	Lines    []string
 	TickSame bool // back-tick on the same line as `raw`
 	CRLF     bool // content lines are separated by CR LF
+	Pad      string // white space between the last line and the closing back-tick (not part of the content)
 }
 
 func (*Const) itemNode()        {}
